@@ -90,7 +90,7 @@ def body():
                 else:
                     f = api.GridFunction(P1, coefficients=np.arange(1.0, 7.0))
                     A, R = op.evaluate(f), getattr(pot.modified_helmholtz, name)(P1, pts, w).evaluate(f)
-                if np.abs(A - R).max() > 1e-13 * np.abs(R).max():
+                if not (np.abs(A - R).max() <= 1e-13 * np.abs(R).max()):   # NaN counts as a deviation
                     chk.violation("imaginary_k:%s" % site, "%s differs from modified_helmholtz(w=%s) by %.3g" % (label, w, np.abs(A - R).max() / np.abs(R).max()), {"obligation": ob})
                 # every optional argument reaches the routed factory: an explicit parameter object with other orders than the global ones,
                 # an explicit assembler and precision give exactly what the modified Helmholtz factory gives for the same arguments
@@ -109,7 +109,7 @@ def body():
                     chk.count(label + " explicit arguments", True)
                     if np.abs(Rp - R).max() <= 1e-9 * np.abs(R).max():
                         raise common.MachineryError("orders (2,3) give the same numbers as the global orders: the forwarding test is vacuous")
-                    if np.abs(Ap - Rp).max() > 1e-13 * np.abs(Rp).max():
+                    if not (np.abs(Ap - Rp).max() <= 1e-13 * np.abs(Rp).max()):   # NaN counts as a deviation
                         chk.violation("forwarding:%s" % site, "%s with an explicit parameter object (orders 2,3), assembler and precision differs from modified_helmholtz(w=%s) with the same arguments by %.3g: an optional argument is not handed on" % (
                             label, w, np.abs(Ap - Rp).max() / np.abs(Rp).max()), {"obligation": ob})
                 # limit of a vanishing real part
@@ -118,7 +118,7 @@ def body():
                     Ae = (getattr(b.helmholtz, name)(P1, P1, P1, eps + 1j * w) if name == "hypersingular" else getattr(b.helmholtz, name)(P1, D0, D0, eps + 1j * w)).weak_form().to_dense()
                 else:
                     Ae = getattr(pot.helmholtz, name)(P1, pts, eps + 1j * w).evaluate(f)
-                if np.abs(Ae - R).max() > 50 * eps * max(np.abs(R).max(), 1e-3):
+                if not (np.abs(Ae - R).max() <= 50 * eps * max(np.abs(R).max(), 1e-3)):   # NaN counts as a deviation
                     chk.violation("imaginary_k_limit:%s" % site, "%s: helmholtz(eps + i w) is %.3g away from modified_helmholtz(w) for eps = 1e-7" % (label, np.abs(Ae - R).max()), {"obligation": ob})
         except Exception as exc:
             chk.violation("routing:%s:exception" % site, "%s: %s: %s" % (label, type(exc).__name__, str(exc)[:200]), {"obligation": ob})
@@ -150,25 +150,25 @@ def body():
                 bound = abs(kk) ** 2 * D / (4 * np.pi) * mm
                 ratio = float((np.abs(R) / bound).max())
                 worst["sl"] = max(worst["sl"], ratio)
-                if ratio > 1.0 + 1e-9:
+                if not (ratio <= 1.0 + 1e-9):   # NaN counts as a deviation
                     chk.violation("bound:single_layer", "%s: |H - L - ik/4pi m m'| exceeds |k|^2 D/4pi m m' by the factor %.4g" % (label, ratio), {"k": [kk.real if isinstance(kk, complex) else kk, getattr(kk, 'imag', 0.0)]})
                 for n in ("double_layer", "adjoint_double_layer"):
                     R = H[n] - L[n]
                     bound = abs(kk) ** 2 / (4 * np.pi) * mm
                     ratio = float((np.abs(R) / bound).max())
                     worst["dl"] = max(worst["dl"], ratio)
-                    if ratio > 1.0 + 1e-9:
+                    if not (ratio <= 1.0 + 1e-9):   # NaN counts as a deviation
                         chk.violation("bound:%s" % n, "%s: |K_H - K_L| exceeds |k|^2/4pi m m' by the factor %.4g" % (label, ratio), {})
                 # conjugation: Op(-conj k) = conj Op(k)
                 kc = -np.conj(kk)
                 for n in ("single_layer", "double_layer", "adjoint_double_layer"):
                     Hc = getattr(b.helmholtz, n)(sp[kd], sp[kt], sp[kt], kc).weak_form().to_dense()
-                    if np.abs(Hc - np.conj(H[n])).max() > 1e-13 * np.abs(H[n]).max():
+                    if not (np.abs(Hc - np.conj(H[n])).max() <= 1e-13 * np.abs(H[n]).max()):   # NaN counts as a deviation
                         chk.violation("conjugation:%s" % n, "%s: %s(-conj k) differs from conj %s(k) by %.3g" % (label, n, n, np.abs(Hc - np.conj(H[n])).max() / np.abs(H[n]).max()), {})
                 if kd == kt == "P1":
                     W = b.helmholtz.hypersingular(sp["P1"], sp["P1"], sp["P1"], kk).weak_form().to_dense()
                     Wc = b.helmholtz.hypersingular(sp["P1"], sp["P1"], sp["P1"], kc).weak_form().to_dense()
-                    if np.abs(Wc - np.conj(W)).max() > 1e-13 * np.abs(W).max():
+                    if not (np.abs(Wc - np.conj(W)).max() <= 1e-13 * np.abs(W).max()):   # NaN counts as a deviation
                         chk.violation("conjugation:hypersingular", "%s: hypersingular(-conj k) differs from the conjugate" % label, {})
         # symmetry clauses (thorough: judged at order 8)
         sym = {}
@@ -186,7 +186,7 @@ def body():
             if judged:
                 for a, v in vals.items():
                     chk.count(("symmetry", gname, a), True)
-                    if v > 1e-6:
+                    if not (v <= 1e-6):   # NaN counts as a deviation
                         chk.violation("symmetry:%s" % a, "%s on %s: asymmetry %.3g at orders (8,8)" % (a, gname, v), {})
             par.quadrature.regular, par.quadrature.singular = 4, 4
         chk.part("symmetry_defects", **{gname: sym})
@@ -199,13 +199,13 @@ def body():
             v = float(np.abs(Ws - Ws.T).max() / np.abs(Ws).max())
             chk.count(("symmetry", gname, "W swapped normals"), True)
             chk.part("symmetry_defects_swapped", **{gname: v})
-            if v > 1e-6:
+            if not (v <= 1e-6):   # NaN counts as a deviation
                 chk.violation("symmetry:W", "hypersingular with the normals of domain %d swapped on %s: asymmetry %.3g at orders (8,8)" % (doms[-1], gname, v), {})
             par.quadrature.regular, par.quadrature.singular = 4, 4
             We = b.helmholtz.hypersingular(ps, ps, ps, 1e-7 + 0.5j).weak_form().to_dense()
             Wm = b.modified_helmholtz.hypersingular(ps, ps, ps, 0.5).weak_form().to_dense()
             chk.count(("imaginary_k_limit", gname, "W swapped normals"), True)
-            if np.abs(We - Wm).max() > 50 * 1e-7 * np.abs(Wm).max():
+            if not (np.abs(We - Wm).max() <= 50 * 1e-7 * np.abs(Wm).max()):   # NaN counts as a deviation
                 chk.violation("imaginary_k_limit:boundary.hypersingular", "hypersingular(1e-7 + 0.5i) with the normals of domain %d swapped is %.3g away from modified_helmholtz(0.5) on %s" % (
                     doms[-1], np.abs(We - Wm).max() / np.abs(Wm).max(), gname), {})
     chk.cov["worst_bound_ratio"] = worst
